@@ -16,6 +16,11 @@
 //!   file are parsed, and the reader has to return exactly the logical
 //!   records (compared in wire format: owner, type, class, TTL, RDATA).
 //!
+//! * `limits` -- every length / value limit the reader enforces (label 63,
+//!   name 255, character string 255, u32/u16/u8) just inside and just outside,
+//!   in every spelling of the octets and in every field of that kind: accepted
+//!   iff the decoded value is within the limit, with exactly the decoded octets.
+//!
 //! Totality oracle: no panic, no hang (watchdog), at most `len+2` entries,
 //! the error (if any) carries a line/column inside the input, every returned
 //! record is a well-formed wire record, and a second reader (built through
@@ -1487,6 +1492,536 @@ fn run_l2(sh: &Shared, lc: &LayoutCounters, n: usize, kinds: &[Kind], per_case_w
     });
 }
 
+// ---------------- space L3: limits x spelling --------------------------
+//
+// For every length / value limit the reader enforces (label 63, name 255
+// wire octets, character string 255, u32 / u16 / u8 integers) the value
+// just inside and just outside the limit, in every spelling of the octets
+// (plain, one \DDD escape at every position, one \X escape at every
+// position, one escaped special octet at every position, all octets \DDD,
+// quoted where the grammar has quotes), in owner position and in every
+// RDATA / directive field of that syntactic kind.  Reference: the entry is
+// accepted iff the *decoded* value is within the limit, and then the record
+// has exactly the decoded octets; otherwise the reader has to return an
+// error (any) without returning the entry.
+
+#[derive(Clone, Copy, PartialEq, Eq, Debug)]
+enum Esc {
+    Plain,
+    Dec(usize),
+    Simple(usize),
+    Special(usize),
+    AllDec,
+}
+
+impl Esc {
+    fn class(self, n: usize) -> String {
+        let pos = |i: usize| if i == 0 { "first" } else if i + 1 == n { "last" } else { "inner" };
+        match self {
+            Esc::Plain => "plain".into(),
+            Esc::Dec(i) => format!("decimal-escape-{}", pos(i)),
+            Esc::Simple(i) => format!("simple-escape-{}", pos(i)),
+            Esc::Special(i) => format!("escaped-special-{}", pos(i)),
+            Esc::AllDec => "all-decimal-escapes".into(),
+        }
+    }
+}
+
+fn all_escs(n: usize) -> Vec<Esc> {
+    let mut v = vec![Esc::Plain];
+    if n > 0 {
+        v.push(Esc::AllDec);
+    }
+    for i in 0..n {
+        v.push(Esc::Dec(i));
+        v.push(Esc::Simple(i));
+        v.push(Esc::Special(i));
+    }
+    v
+}
+
+/// `n` octets a,b,c,... with the requested escape; `special` is the octet
+/// and its spelling used for Esc::Special.  Returns (decoded, text).
+fn spell(n: usize, esc: Esc, special: (u8, &str)) -> (Vec<u8>, String) {
+    let mut oct = Vec::with_capacity(n);
+    let mut text = String::new();
+    for j in 0..n {
+        let c = b'a' + (j % 26) as u8;
+        match esc {
+            Esc::Dec(i) if i == j => {
+                oct.push(c);
+                text.push_str(&format!("\\{c:03}"));
+            }
+            Esc::Simple(i) if i == j => {
+                oct.push(c);
+                text.push('\\');
+                text.push(c as char);
+            }
+            Esc::Special(i) if i == j => {
+                oct.push(special.0);
+                text.push_str(special.1);
+            }
+            Esc::AllDec => {
+                oct.push(c);
+                text.push_str(&format!("\\{c:03}"));
+            }
+            _ => {
+                oct.push(c);
+                text.push(c as char);
+            }
+        }
+    }
+    (oct, text)
+}
+
+fn wire_of(labels: &[Vec<u8>]) -> Vec<u8> {
+    let mut v = Vec::new();
+    for l in labels {
+        v.push(l.len() as u8);
+        v.extend_from_slice(l);
+    }
+    v.push(0);
+    v
+}
+
+fn name_within_limits(labels: &[Vec<u8>]) -> bool {
+    labels.iter().all(|l| !l.is_empty() && l.len() <= 63) && wire_of(labels).len() <= 255
+}
+
+fn raw_rec(owner: &[Vec<u8>], rtype: u16, ttl: u32, rdata: &[u8]) -> Vec<u8> {
+    let mut v = vec![b'R'];
+    v.extend(wire_of(owner));
+    v.extend_from_slice(&rtype.to_be_bytes());
+    v.extend_from_slice(&1u16.to_be_bytes());
+    v.extend_from_slice(&ttl.to_be_bytes());
+    v.extend_from_slice(&(rdata.len() as u16).to_be_bytes());
+    v.extend_from_slice(rdata);
+    v
+}
+
+struct LimitCase {
+    text: String,
+    /// Some(entries) = must be accepted with exactly these; None = must be rejected
+    expected: Option<Vec<Vec<u8>>>,
+    /// entries in front of the tested entry (returned also when it is rejected)
+    before: Vec<Vec<u8>>,
+    /// which limit ("label", "name", "charstr", "integer-u16", ...)
+    family: String,
+    /// where relative to the limit ("len=64", "wire-len=256", "max+1..9", ...)
+    boundary: String,
+    /// spelling kind without position ("plain", "decimal-escape", ...)
+    kind: String,
+    field: String,
+    /// full description of the case (positions etc.), for messages only
+    detail: String,
+}
+
+fn kind_of(spelling: &str) -> String {
+    for suffix in ["-first", "-inner", "-last"] {
+        if let Some(k) = spelling.strip_suffix(suffix) {
+            return k.to_string();
+        }
+    }
+    spelling.to_string()
+}
+
+const SENTINEL: &str = "s.z. IN 60 A 192.0.2.7\n";
+
+fn sentinel_entry() -> Vec<u8> {
+    raw_rec(&[b"s".to_vec(), b"z".to_vec()], 1, 60, &[192, 0, 2, 7])
+}
+
+const NAME_FIELDS: [&str; 6] = ["owner", "mx-exchange", "soa-mname", "soa-rname", "origin-directive", "include-origin"];
+
+/// A file testing `name_text` (decoding to absolute `labels`) in `field`.
+fn name_case(field: &str, name_text: &str, labels: &[Vec<u8>], ok: bool, family: &str, boundary: String, spelling: &str, detail: String) -> LimitCase {
+    let z = vec![b"z".to_vec()];
+    let a = [1u8, 2, 3, 4];
+    let (line, entry) = match field {
+        "owner" => (format!("{name_text} IN 60 A 1.2.3.4\n"), raw_rec(labels, 1, 60, &a)),
+        "mx-exchange" => {
+            let mut rd = vec![0, 10];
+            rd.extend(wire_of(labels));
+            (format!("z. IN 60 MX 10 {name_text}\n"), raw_rec(&z, 15, 60, &rd))
+        }
+        "soa-mname" | "soa-rname" => {
+            let other = vec![b"h".to_vec(), b"z".to_vec()];
+            let (m, r) = if field == "soa-mname" { (labels.to_vec(), other) } else { (other, labels.to_vec()) };
+            let mut rd = wire_of(&m);
+            rd.extend(wire_of(&r));
+            for n in [1u32, 60, 60, 60, 60] {
+                rd.extend_from_slice(&n.to_be_bytes());
+            }
+            let line = if field == "soa-mname" {
+                format!("z. IN 60 SOA {name_text} h.z. 1 60 60 60 60\n")
+            } else {
+                format!("z. IN 60 SOA h.z. {name_text} 1 60 60 60 60\n")
+            };
+            (line, raw_rec(&z, 6, 60, &rd))
+        }
+        "origin-directive" => (format!("$ORIGIN {name_text}\n@ IN 60 A 1.2.3.4\n"), raw_rec(labels, 1, 60, &a)),
+        _ => {
+            let mut e = vec![b'I', b'f', 0, 1];
+            e.extend(wire_of(labels));
+            (format!("$INCLUDE f {name_text}\n"), e)
+        }
+    };
+    LimitCase {
+        text: format!("$ORIGIN z.\n{line}{SENTINEL}"),
+        expected: ok.then(|| vec![entry, sentinel_entry()]),
+        before: Vec::new(),
+        family: family.to_string(),
+        boundary,
+        kind: kind_of(spelling),
+        field: field.to_string(),
+        detail: format!("{spelling}, {detail}"),
+    }
+}
+
+fn limit_cases() -> Vec<LimitCase> {
+    let mut out = Vec::new();
+    let z = vec![b"z".to_vec()];
+
+    // ---- F1: label length 63 / 64 -----------------------------------
+    for n in [1usize, 62, 63, 64, 65] {
+        for esc in all_escs(n) {
+            let (oct, txt) = spell(n, esc, (b'.', "\\."));
+            for lpos in ["alone", "first", "middle", "last"] {
+                let (mut labels, text): (Vec<Vec<u8>>, String) = match lpos {
+                    "alone" => (vec![oct.clone()], txt.clone()),
+                    "first" => (vec![oct.clone(), b"c".to_vec()], format!("{txt}.c")),
+                    "middle" => (vec![b"b".to_vec(), oct.clone(), b"c".to_vec()], format!("b.{txt}.c")),
+                    _ => (vec![b"b".to_vec(), oct.clone()], format!("b.{txt}")),
+                };
+                for abs in [false, true] {
+                    let mut l2 = labels.clone();
+                    let t2 = if abs {
+                        format!("{text}.")
+                    } else {
+                        l2.push(b"z".to_vec());
+                        text.clone()
+                    };
+                    let ok = name_within_limits(&l2);
+                    for field in NAME_FIELDS {
+                        if field == "origin-directive" && !abs {
+                            continue;
+                        }
+                        out.push(name_case(field, &t2, &l2, ok, "label", format!("len={n}"), &esc.class(n), format!("label {lpos} in a {} name", if abs { "absolute" } else { "relative" })));
+                    }
+                }
+                labels.clear();
+            }
+        }
+    }
+
+    // ---- F2: name length 255 / 256 wire octets -------------------------
+    for total in [254usize, 255, 256] {
+        for abs in [false, true] {
+            for shape in ["long-labels", "one-octet-labels"] {
+                // label lengths of the part that is written out
+                let tail = if abs { 1 } else { 3 }; // root, or z + root
+                let lens: Vec<usize> = if shape == "long-labels" {
+                    vec![63, 63, 63, total - tail - 3 * 64 - 1]
+                } else {
+                    let m = if abs { 125 } else { 124 };
+                    let mut v = vec![1; m];
+                    v.push(total - tail - 2 * m - 1);
+                    v
+                };
+                let nl = lens.len();
+                // (label index, octet index, kind) of the single escape; None = plain / all
+                let mut variants: Vec<(Option<(usize, usize)>, u8)> = vec![(None, 0), (None, 9)];
+                for li in [0, nl / 2, nl - 1] {
+                    for oi in [0, lens[li] - 1] {
+                        for k in [1u8, 2] {
+                            variants.push((Some((li, oi)), k));
+                        }
+                    }
+                }
+                for (at, k) in variants {
+                    let mut labels = Vec::new();
+                    let mut parts = Vec::new();
+                    for (li, &len) in lens.iter().enumerate() {
+                        let esc = match (at, k) {
+                            (None, 9) => Esc::AllDec,
+                            (Some((l, o)), 1) if l == li => Esc::Dec(o),
+                            (Some((l, o)), 2) if l == li => Esc::Simple(o),
+                            _ => Esc::Plain,
+                        };
+                        let (o, t) = spell(len, esc, (b'.', "\\."));
+                        labels.push(o);
+                        parts.push(t);
+                    }
+                    let mut text = parts.join(".");
+                    if abs {
+                        text.push('.');
+                    } else {
+                        labels.push(b"z".to_vec());
+                    }
+                    let ok = name_within_limits(&labels);
+                    let spelling = match (at, k) {
+                        (None, 0) => "plain".to_string(),
+                        (None, _) => "all-decimal-escapes".to_string(),
+                        (Some((li, oi)), k) => format!(
+                            "{}-escape-in-{}-label-{}",
+                            if k == 1 { "decimal" } else { "simple" },
+                            if li == 0 { "first" } else if li == nl - 1 { "last" } else { "middle" },
+                            if oi == 0 { "first" } else { "last" }
+                        ),
+                    };
+                    for field in ["owner", "mx-exchange", "origin-directive", "include-origin"] {
+                        if field == "origin-directive" && !abs {
+                            continue;
+                        }
+                        out.push(name_case(field, &text, &labels, ok, "name", format!("wire-len={total}"), &spelling, format!("{shape}, {}", if abs { "absolute" } else { "relative" })));
+                    }
+                }
+            }
+        }
+    }
+
+    // ---- F3: character string length 255 / 256 -------------------------
+    for n in [0usize, 1, 254, 255, 256] {
+        for quoted in [false, true] {
+            if n == 0 && !quoted {
+                continue;
+            }
+            let mut escs = all_escs(n);
+            if quoted {
+                // a second special inside quotes: the escaped double quote
+                for i in 0..n {
+                    escs.push(Esc::Special(i + 1000));
+                }
+            }
+            for esc in escs {
+                let (esc2, special): (Esc, (u8, &str)) = match (quoted, esc) {
+                    (true, Esc::Special(i)) if i >= 1000 => (Esc::Special(i - 1000), (b'"', "\\\"")),
+                    (true, _) => (esc, (b' ', " ")), // a literal space inside quotes
+                    (false, _) => (esc, (b' ', "\\ ")),
+                };
+                let (oct, t) = spell(n, esc2, special);
+                let tok = if quoted { format!("\"{t}\"") } else { t };
+                let ok = oct.len() <= 255;
+                let cs = |s: &[u8]| {
+                    let mut v = vec![s.len() as u8];
+                    v.extend_from_slice(s);
+                    v
+                };
+                let spelling = format!(
+                    "{}{}",
+                    if quoted { "quoted-" } else { "" },
+                    match esc {
+                        Esc::Special(i) if i >= 1000 => format!("escaped-quote-{}", if i == 1000 { "first" } else if i + 1 == n + 1000 { "last" } else { "inner" }),
+                        e => e.class(n),
+                    }
+                );
+                for field in ["txt-only", "txt-first", "txt-second", "hinfo-cpu", "hinfo-os"] {
+                    let (line, rtype, rd): (String, u16, Vec<u8>) = match field {
+                        "txt-only" => (format!("z. IN 60 TXT {tok}\n"), 16, cs(&oct)),
+                        "txt-first" => (format!("z. IN 60 TXT {tok} k\n"), 16, [cs(&oct), cs(b"k")].concat()),
+                        "txt-second" => (format!("z. IN 60 TXT k {tok}\n"), 16, [cs(b"k"), cs(&oct)].concat()),
+                        "hinfo-cpu" => (format!("z. IN 60 HINFO {tok} k\n"), 13, [cs(&oct), cs(b"k")].concat()),
+                        _ => (format!("z. IN 60 HINFO k {tok}\n"), 13, [cs(b"k"), cs(&oct)].concat()),
+                    };
+                    out.push(LimitCase {
+                        text: format!("$ORIGIN z.\n{line}{SENTINEL}"),
+                        expected: ok.then(|| vec![raw_rec(&z, rtype, 60, &rd), sentinel_entry()]),
+                        before: Vec::new(),
+                        family: "charstr".into(),
+                        boundary: format!("len={n}"),
+                        kind: kind_of(&spelling),
+                        field: field.to_string(),
+                        detail: spelling.clone(),
+                    });
+                }
+            }
+        }
+    }
+
+    // ---- F4: integer maxima -----------------------------------------------
+    // (field, max that must be accepted, values)
+    let u32v: [u64; 8] = [0, 4294967294, 4294967295, 4294967296, 4294967305, 10000000000, 42949672950, 99999999999];
+    // TTLs: RFC 2181 8 leaves values above 2^31-1 to the implementation; only
+    // values <= 2^31-1 (must be accepted) and >= 2^32 (must be rejected) are used
+    let ttlv: [u64; 7] = [0, 2147483646, 2147483647, 4294967296, 4294967305, 10000000000, 42949672950];
+    let u16v: [u64; 7] = [0, 65534, 65535, 65536, 65545, 100000, 655350];
+    let u8v: [u64; 7] = [0, 254, 255, 256, 265, 1000, 2550];
+    let a = [1u8, 2, 3, 4];
+    for lead in ["", "0", "000"] {
+        let sp = if lead.is_empty() { "plain".to_string() } else { format!("leading-zeros-{}", lead.len()) };
+        let soa = |i: usize, v: u64| -> (String, Vec<u8>) {
+            let mut f: Vec<String> = ["1", "60", "60", "60", "60"].iter().map(|s| s.to_string()).collect();
+            f[i] = format!("{lead}{v}");
+            let mut rd = wire_of(&[b"ns".to_vec(), b"z".to_vec()]);
+            rd.extend(wire_of(&[b"h".to_vec(), b"z".to_vec()]));
+            for (j, n) in [1u64, 60, 60, 60, 60].iter().enumerate() {
+                rd.extend_from_slice(&((if j == i { v } else { *n }) as u32).to_be_bytes());
+            }
+            (format!("z. IN 60 SOA ns.z. h.z. {}\n", f.join(" ")), rd)
+        };
+        // `ty`: how the field is read (u32 / u16 / u8 / Ttl / the TTL of a
+        // record); `tmax`: the maximum of that type; `max`: the largest value
+        // that has to be accepted
+        let mut push = |field: &str, ty: &str, tmax: u64, v: u64, max: u64, line: String, entries: Vec<Vec<u8>>| {
+            let mut exp = entries;
+            let before = exp[..exp.len() - 1].to_vec();
+            exp.push(sentinel_entry());
+            let boundary = if v <= max {
+                "within".to_string()
+            } else if v <= tmax + 9 {
+                "type-max+1..9".to_string()
+            } else {
+                "far-over".to_string()
+            };
+            out.push(LimitCase {
+                text: format!("$ORIGIN z.\n{line}{SENTINEL}"),
+                expected: (v <= max).then_some(exp),
+                before,
+                family: format!("integer-{ty}"),
+                boundary,
+                kind: if lead.is_empty() { "plain".into() } else { "leading-zeros".into() },
+                field: field.to_string(),
+                detail: format!("value {lead}{v}, {sp}"),
+            });
+        };
+        for v in ttlv {
+            let t = v as u32;
+            push("ttl-after-class", "record-ttl", 4294967295, v, 2147483647, format!("z. IN {lead}{v} A 1.2.3.4\n"), vec![raw_rec(&z, 1, t, &a)]);
+            push("ttl-before-class", "record-ttl", 4294967295, v, 2147483647, format!("z. {lead}{v} IN A 1.2.3.4\n"), vec![raw_rec(&z, 1, t, &a)]);
+            push(
+                "ttl-without-class",
+                "record-ttl",
+                4294967295,
+                v,
+                2147483647,
+                format!("z. IN 60 A 192.0.2.9\nz. {lead}{v} A 1.2.3.4\n"),
+                vec![raw_rec(&z, 1, 60, &[192, 0, 2, 9]), raw_rec(&z, 1, t, &a)],
+            );
+            push("dollar-ttl", "u32", 4294967295, v, 2147483647, format!("$TTL {lead}{v}\nz. IN A 1.2.3.4\n"), vec![raw_rec(&z, 1, t, &a)]);
+            for i in 1..5 {
+                let (line, rd) = soa(i, v);
+                push(["", "soa-refresh", "soa-retry", "soa-expire", "soa-minimum"][i], "ttl", 4294967295, v, 2147483647, line, vec![raw_rec(&z, 6, 60, &rd)]);
+            }
+        }
+        for v in u32v {
+            let (line, rd) = soa(0, v);
+            push("soa-serial", "u32", 4294967295, v, 4294967295, line, vec![raw_rec(&z, 6, 60, &rd)]);
+        }
+        for v in u16v {
+            let mut rd = (v as u16).to_be_bytes().to_vec();
+            rd.extend(wire_of(&[b"m".to_vec(), b"z".to_vec()]));
+            push("mx-preference", "u16", 65535, v, 65535, format!("z. IN 60 MX {lead}{v} m.z.\n"), vec![raw_rec(&z, 15, 60, &rd)]);
+        }
+        for v in u8v {
+            push("sshfp-algorithm", "u8-enum", 255, v, 255, format!("z. IN 60 SSHFP {lead}{v} 1 ab\n"), vec![raw_rec(&z, 44, 60, &[v as u8, 1, 0xab])]);
+            push("sshfp-type", "u8-enum", 255, v, 255, format!("z. IN 60 SSHFP 1 {lead}{v} ab\n"), vec![raw_rec(&z, 44, 60, &[1, v as u8, 0xab])]);
+        }
+    }
+    out
+}
+
+/// Verdict of one limits case: None = as the reference says.
+fn limit_verdict(c: &LimitCase) -> Option<(String, String)> {
+    match &c.expected {
+        Some(exp) => layout_verdict(&c.text, exp).map(|(class, what)| (format!("within-limit|{class}"), format!("value within the limit: {what}"))),
+        None => {
+            let bytes = c.text.as_bytes();
+            match guard(|| read_all(reader_a(bytes), bytes.len() + 2)) {
+                Err(p) => Some((format!("over-limit|panic:{}", norm_panic(&p)), format!("reader panicked: {p}"))),
+                Ok(o) => match o.end {
+                    End::Err(_) if o.entries == c.before => None,
+                    End::Err(e) => Some((
+                        "over-limit|entry-returned-before-error".into(),
+                        format!("{} entries returned before the error {e:?}, expected the {} in front of the entry that is over the limit", o.entries.len(), c.before.len()),
+                    )),
+                    _ => Some((
+                        "over-limit|accepted".into(),
+                        format!("a value over the limit is accepted; entries returned: {}", o.entries.iter().map(|e| hex(e)).collect::<Vec<_>>().join(" ")),
+                    )),
+                },
+            }
+        }
+    }
+}
+
+/// Signature of a group of failing limits cases: the spelling kind and the
+/// field are generalised to `any` when every kind / field explored for that
+/// (family, boundary) fails in the same way.
+fn run_limits(sh: &Shared, per_case_wd: bool, only: Option<(usize, usize)>) -> (u64, u64) {
+    let cases = limit_cases();
+    let total = cases.len();
+    let (lo, hi) = only.unwrap_or((0, total));
+    let failures: Mutex<Vec<(usize, String, String)>> = Mutex::new(Vec::new());
+    const LCH: usize = 512;
+    let chunks: Vec<usize> = (lo..hi.min(total)).step_by(LCH).collect();
+    let case_json = |c: &LimitCase, sig: &str| {
+        json!({"part": "limits", "text": c.text, "expected_hex": c.expected.as_ref().map(|e| e.iter().map(|x| hex(x)).collect::<Vec<_>>()),
+               "before_hex": c.before.iter().map(|x| hex(x)).collect::<Vec<_>>(), "signature": sig,
+               "family": c.family, "boundary": c.boundary, "kind": c.kind, "field": c.field, "detail": c.detail})
+    };
+    chunks.par_iter().for_each(|&from| {
+        let to = (from + LCH).min(hi).min(total);
+        if !per_case_wd {
+            sh.wd.enter(|| json!({"part": "limits-chunk", "from": from, "to": to}));
+        }
+        let mut l = Local::default();
+        for (i, c) in cases[from..to].iter().enumerate() {
+            if per_case_wd {
+                sh.wd.enter(|| case_json(c, "C07|hang|limits"));
+            }
+            l.evals += 1;
+            l.nontrivial.push(fnv(c.text.as_bytes()));
+            l.bump(&format!("limits.{}.{}", c.family, if c.expected.is_some() { "within-limit" } else { "over-limit" }));
+            if let Some((class, what)) = limit_verdict(c) {
+                l.bump(&format!("limits.failing.{}.{}.{class}", c.family, c.boundary));
+                failures.lock().unwrap().push((from + i, class, what));
+            }
+            if per_case_wd {
+                sh.wd.leave();
+            }
+        }
+        if !per_case_wd {
+            sh.wd.leave();
+        }
+        sh.absorb(l);
+    });
+    let mut failures = failures.into_inner().unwrap();
+    failures.sort();
+    // universe of kinds and fields per (family, boundary)
+    let mut kinds_all: BTreeMap<(String, String), std::collections::BTreeSet<String>> = BTreeMap::new();
+    let mut fields_all: BTreeMap<(String, String), std::collections::BTreeSet<String>> = BTreeMap::new();
+    for c in &cases {
+        kinds_all.entry((c.family.clone(), c.boundary.clone())).or_default().insert(c.kind.clone());
+        fields_all.entry((c.family.clone(), c.boundary.clone())).or_default().insert(c.field.clone());
+    }
+    let mut groups: BTreeMap<(String, String, String), Vec<usize>> = BTreeMap::new();
+    for (k, (i, class, _)) in failures.iter().enumerate() {
+        groups.entry((cases[*i].family.clone(), cases[*i].boundary.clone(), class.clone())).or_default().push(k);
+    }
+    for ((family, boundary, class), members) in &groups {
+        let key = (family.clone(), boundary.clone());
+        let kinds: std::collections::BTreeSet<String> = members.iter().map(|k| cases[failures[*k].0].kind.clone()).collect();
+        let fields: std::collections::BTreeSet<String> = members.iter().map(|k| cases[failures[*k].0].field.clone()).collect();
+        let any_kind = only.is_none() && kinds == kinds_all[&key];
+        let any_field = only.is_none() && fields == fields_all[&key];
+        let mut reported = std::collections::BTreeSet::new();
+        for k in members {
+            let (i, _, what) = &failures[*k];
+            let c = &cases[*i];
+            let sig = format!(
+                "C07|limits|{family}|{boundary}|spelling={}|field={}|{class}",
+                if any_kind { "any" } else { c.kind.as_str() },
+                if any_field { "any" } else { c.field.as_str() }
+            );
+            if reported.insert(sig.clone()) {
+                let shown: String = c.text.chars().take(300).collect();
+                sh.ctx.violation(&sig, &format!("{what}; case: {} in {}; input {shown:?}", c.detail, c.field), case_json(c, &sig));
+            }
+        }
+    }
+    (total as u64, failures.len() as u64)
+}
+
 // ===================================================================
 // main
 // ===================================================================
@@ -1595,6 +2130,40 @@ fn replay(sh: &Shared, lc: &LayoutCounters, case: &Value) {
                 run_l2(sh, lc, case["n"].as_u64().unwrap_or(1) as usize, &kinds_from(&case["kinds"]), true, Some(case["file"].as_u64().unwrap_or(0) as usize));
             }
         }
+        "limits" => {
+            let st = |k: &str| case[k].as_str().unwrap_or("?").to_string();
+            let c = LimitCase {
+                text: case["text"].as_str().unwrap_or("").to_string(),
+                expected: case["expected_hex"].as_array().map(|a| a.iter().map(|h| unhex(h.as_str().unwrap_or(""))).collect()),
+                before: case["before_hex"].as_array().map(|a| a.iter().map(|h| unhex(h.as_str().unwrap_or(""))).collect()).unwrap_or_default(),
+                family: st("family"),
+                boundary: st("boundary"),
+                kind: st("kind"),
+                field: st("field"),
+                detail: st("detail"),
+            };
+            println!("input: {:?}", c.text);
+            sh.wd.enter(|| case.clone());
+            println!("reader: {:?}", guard(|| read_all(reader_a(c.text.as_bytes()), c.text.len() + 2)));
+            println!("reference: {}", if c.expected.is_some() { "within the limit, must be accepted" } else { "over the limit, must be rejected" });
+            let v = limit_verdict(&c);
+            println!("verdict: {v:?}");
+            sh.wd.leave();
+            sh.stats.eval();
+            if let Some((class, what)) = v {
+                // keep the signature of the run when the outcome class is the same
+                let stored = st("signature");
+                let sig = if stored.ends_with(&format!("|{class}")) {
+                    stored
+                } else {
+                    format!("C07|limits|{}|{}|spelling={}|field={}|{class}", c.family, c.boundary, c.kind, c.field)
+                };
+                sh.ctx.violation(&sig, &what, case.clone());
+            }
+        }
+        "limits-chunk" => {
+            run_limits(sh, true, Some((case["from"].as_u64().unwrap_or(0) as usize, case["to"].as_u64().unwrap_or(0) as usize)));
+        }
         _ => println!("unknown replay case"),
     }
 }
@@ -1612,6 +2181,7 @@ fn main() {
 
     let (byte_len, tok_depth, parsed_tok_depth) = if quick { (5, 5, 3) } else { (6, 6, 4) };
 
+    let (mut limits_cases, mut limits_failing) = (0u64, 0u64);
     if let Some(path) = &ctx.replay {
         let text = std::fs::read_to_string(path).expect("replay file");
         let v: Value = serde_json::from_str(&text).expect("replay json");
@@ -1635,6 +2205,10 @@ fn main() {
             run_l2(&sh, &lc, 3, &[Kind::A, Kind::Txt], false, None);
             lap("layout L2 n=3");
         }
+        let (n, f) = run_limits(&sh, false, None);
+        limits_cases = n;
+        limits_failing = f;
+        lap("limits x spelling");
     }
 
     // samples
@@ -1659,12 +2233,15 @@ fn main() {
         json!({
             "evaluations": sh.stats.evals(),
             "distinct_nontrivial": sh.stats.distinct_count(),
-            "rule": "distinct inputs (FNV-1a of the text) that are either a totality case in which the strict reader returned at least one entry from the enumerated body and then had to decide more (a further entry or an error), or a layout rendering in the base style (L1: separator=space,line-end=lf,no sentinel; L2 with <=2 records: all records in plain style); the remaining renderings are counted in evaluations only",
+            "rule": "distinct inputs (FNV-1a of the text) that are either a totality case in which the strict reader returned at least one entry from the enumerated body and then had to decide more (a further entry or an error), or a layout rendering in the base style (L1: separator=space,line-end=lf,no sentinel; L2 with <=2 records: all records in plain style), or a limits-x-spelling case (L3, all of them); the remaining renderings are counted in evaluations only",
             "exhaustive": ctx.replay.is_none(),
             "bounds": {"byte_alphabet": String::from_utf8_lossy(ALPHA), "byte_len": byte_len, "token_menu": TOKENS, "token_depth": tok_depth,
                        "parsed_try_from_depth": {"bytes": 4, "tokens": parsed_tok_depth}, "prefixes_bytes": PREFIXES, "prefixes_tokens": &PREFIXES[..3],
                        "layout_L1": "3 owners x 6 data kinds, slots dollar-ttl(2) x owner(5) x class-ttl(5) x data-form(<=6) x separator(3) x continuation(1+4*gaps) x line-end(9) x sentinel(3)",
+                       "limits_L3": "label length {1,62,63,64,65} x {plain, one \\DDD / \\X / escaped dot at every octet, all \\DDD} x label {alone,first,middle,last} x {relative,absolute} x {owner, MX exchange, SOA mname, SOA rname, $ORIGIN, $INCLUDE origin}; name wire length {254,255,256} x {4 long labels, 125 one-octet labels} x {relative,absolute} x {plain, all \\DDD, one \\DDD / \\X in first/middle/last label at first/last octet} x {owner, MX exchange, $ORIGIN, $INCLUDE origin}; character string length {0,1,254,255,256} x {unquoted, quoted} x {plain, all \\DDD, one \\DDD / \\X / space / escaped quote at every octet} x {TXT only/first/second string, HINFO cpu/os}; integers {0,max-1,max,max+1,max+10,next power of ten,10*max(,99999999999)} x {plain, 1 or 3 leading zeros} x {TTL after/before/without class, $TTL, SOA serial/refresh/retry/expire/minimum, MX preference, SSHFP algorithm/type}; TTL-typed fields use 2^31-1 as the largest value that must be accepted and 2^32 as the smallest that must be rejected",
                        "layout_L2": if quick { "files of 1 and 2 records over 3 owners x ttl{60,3600} x {A,TXT,SOA,MX,TYPE65280}; per record $TTL(3) x $ORIGIN-change(2, before record 2) x owner(3) x class-ttl(5) x style(4)" } else { "files of 1 and 2 records over 3 owners x ttl{60,3600} x {A,TXT,SOA,MX,TYPE65280} and of 3 records over 3 owners x ttl{60,3600} x {A,TXT}; per record $TTL(3) x $ORIGIN-change(2, before record 2) x owner(3) x class-ttl(5) x style(4)" }},
+            "limits_cases": limits_cases,
+            "limits_failing_cases": limits_failing,
             "layout_renderings_parsed": lc.renderings.load(AO::Relaxed),
             "layout_renderings_rejected_by_reference_semantics": lc.inadmissible.load(AO::Relaxed),
             "layout_failing_renderings": lc.failing.load(AO::Relaxed),
@@ -1676,6 +2253,7 @@ fn main() {
             "inputs are bounded: bytes over a 14-symbol alphabet, token strings over a 26-token menu, layout rewrites from the listed per-slot menus; longer inputs and other octets (e.g. non-ASCII, UTF-8 sequences) are not covered",
             "layout rewrites used are those whose equivalence follows from RFC 1035 5.1 and RFC 2308 4: omitted TTL = $TTL if a $TTL directive precedes, else last explicitly stated TTL; omitted class = last explicitly stated class; blank owner = last stated owner; files whose first record omits the TTL without $TTL, or omits the class, are not part of the relation",
             "parentheses are always set off by white space in layout renderings; adjacency is exercised only by the totality spaces",
+            "limits: escaped digits in integer fields and quoted domain names are not part of the relation (RFC 1035 does not give them a meaning); TTL values between 2^31 and 2^32-1 are left to the implementation (RFC 2181 section 8)",
             "hang detection is a 120 s wall-clock watchdog per chunk of <=4096 cases",
         ],
     );
